@@ -1,4 +1,5 @@
-// C14 (V): SolarWeek::next extracted verbatim from src/tyme/solar.rs (both loops, the month-border correction).
+// C14 (V): SolarWeek::next (src/tyme/solar.rs) and LunarWeek::next (src/tyme/lunar.rs) extracted verbatim (both loops, the
+// month-border correction).
 // Abstraction: civil months are numbered ord = 12*year + month - 1; F1(ord) is the day number of the month's first
 // day and LEN(ord) its number of days, UNINTERPRETED except that consecutive months abut and a month has 21..31 days.
 // A week (ord, index, start) begins on day F1(ord) - off(ord, start) + 7*index, off = (weekday of day 1 - start) mod 7.
@@ -123,6 +124,117 @@ impl SolarWeek {
         decreases -d + 10,
     //@loop_start 1
         proof { lemma_border(m.ord() - 1, start_index as int); lemma_border(m.ord(), start_index as int); }
+    //@END
+}
+
+
+// ---- LunarWeek::next: the same argument over lunar months (ordinal o, first day FL(o), length CL(o) in 29..30) ----
+pub uninterp spec fn FL(o: int) -> int;
+pub uninterp spec fn CL(o: int) -> int;
+pub uninterp spec fn LO_MAX() -> int;
+#[verifier::external_body]
+pub proof fn axiom_lunar_months(o: int)      // L-NEW: tiling and 29/30 days (outside the reform-year breaks)
+    ensures FL(o + 1) == FL(o) + CL(o), 29 <= CL(o) <= 30,
+{ unimplemented!() }
+pub open spec fn loff(o: int, s: int) -> int { (((FL(o) + 1) % 7) - s) % 7 }
+pub open spec fn lwc(o: int, s: int) -> int { (loff(o, s) + CL(o) + 6) / 7 }
+pub open spec fn lweek_first(o: int, i: int, s: int) -> int { FL(o) - loff(o, s) + 7 * i }
+pub proof fn lemma_lborder(o: int, s: int)
+    requires 0 <= s < 7,
+    ensures
+        loff(o + 1, s) == (loff(o, s) + CL(o)) % 7,
+        5 <= lwc(o, s) <= 6,
+        loff(o + 1, s) == 0 ==> lweek_first(o + 1, 0, s) == lweek_first(o, lwc(o, s), s),
+        loff(o + 1, s) != 0 ==> lweek_first(o + 1, 0, s) == lweek_first(o, lwc(o, s) - 1, s),
+{
+    axiom_lunar_months(o);
+}
+#[verifier::external_body]
+pub struct LunarMonth { _p: u8 }
+impl Clone for LunarMonth { #[verifier::external_body] fn clone(&self) -> Self { unimplemented!() } }
+impl Copy for LunarMonth {}
+#[verifier::external_body]
+pub struct LunarDay { _p: u8 }
+pub uninterp spec fn lord_of(y: int, mwl: int) -> int;
+impl LunarMonth {
+    pub uninterp spec fn ord(&self) -> int;
+    pub uninterp spec fn yr(&self) -> int;
+    pub uninterp spec fn mwl(&self) -> int;
+    #[verifier::external_body]
+    pub proof fn axiom_id(&self) ensures lord_of(self.yr(), self.mwl()) == self.ord() { unimplemented!() }
+    #[verifier::external_body]
+    fn next(&self, n: isize) -> (r: Self)
+        requires 0 <= self.ord() + n <= LO_MAX(),
+        ensures r.ord() == self.ord() + n,
+    { unimplemented!() }
+    #[verifier::external_body]
+    fn get_week_count(&self, start: usize) -> (r: usize) requires start < 7, ensures r == lwc(self.ord(), start as int) { unimplemented!() }
+    #[verifier::external_body]
+    fn get_year(&self) -> (r: isize) ensures r == self.yr() { unimplemented!() }
+    #[verifier::external_body]
+    fn get_month_with_leap(&self) -> (r: isize) ensures r == self.mwl(), lord_of(self.yr(), self.mwl()) == self.ord() { unimplemented!() }
+}
+impl LunarDay {
+    pub uninterp spec fn jdn(&self) -> int;
+    #[verifier::external_body]
+    fn from_ymd(year: isize, month: isize, day: usize) -> (r: Self)
+        requires day == 1, 0 <= lord_of(year as int, month as int) <= LO_MAX(),
+        ensures r.jdn() == FL(lord_of(year as int, month as int)),
+    { unimplemented!() }
+    #[verifier::external_body]
+    fn get_week(&self) -> (r: Week) ensures r.idx() == (self.jdn() + 1) % 7 { unimplemented!() }
+}
+
+//@STRUCT file=src/tyme/lunar.rs struct=LunarWeek
+
+impl LunarWeek {
+    spec fn first(&self) -> int { lweek_first(self.month.ord(), self.index as int, self.start.idx()) }
+    spec fn wf(&self) -> bool { 0 <= self.month.ord() <= LO_MAX() && 0 <= self.start.idx() < 7 && self.index < lwc(self.month.ord(), self.start.idx()) }
+
+    #[verifier::external_body]
+    fn from_ym(year: isize, month: isize, index: usize, start: usize) -> (r: Self)
+        requires start < 7, 0 <= lord_of(year as int, month as int) <= LO_MAX(), index < lwc(lord_of(year as int, month as int), start as int),
+        ensures r.month.ord() == lord_of(year as int, month as int), r.index == index, r.start.idx() == start,
+    { unimplemented!() }
+    // n == 0 returns a copy (derive(Clone) of the real struct)
+    #[verifier::external_body]
+    fn clone(&self) -> (r: Self)
+        ensures r.month.ord() == self.month.ord(), r.index == self.index, r.start.idx() == self.start.idx(),
+    { unimplemented!() }
+
+    //@EXTRACT file=src/tyme/lunar.rs impl="impl Tyme for LunarWeek" fn=next loops=2
+    //@sig
+        requires
+            self.wf(), -100000 <= n <= 100000,
+            8 <= self.month.ord() + n, self.month.ord() + n + 8 <= LO_MAX(),
+            8 <= self.month.ord(), self.month.ord() + 8 <= LO_MAX(),
+        ensures
+            r.wf(),
+            r.first() == self.first() + 7 * n,
+    //@body_start
+        proof { lemma_lborder(self.month.ord(), self.start.idx()); }
+    //@loop 0
+        invariant
+            self.wf(), n > 0, -100000 <= n <= 100000, start_index == self.start.idx(),
+            self.month.ord() + n + 8 <= LO_MAX(), 8 <= self.month.ord(),
+            self.month.ord() <= m.ord(), m.ord() + d <= self.month.ord() + self.index + n,
+            0 <= d <= 200000, week_count == lwc(m.ord(), start_index as int), self.index <= 5, 5 <= week_count <= 6,
+            lweek_first(m.ord(), d as int, start_index as int) == self.first() + 7 * n,
+        decreases d,
+    //@loop_start 0
+        proof { lemma_lborder(m.ord(), start_index as int); lemma_lborder(m.ord() + 1, start_index as int); }
+    //@loop_end 0
+        proof { m.axiom_id(); }
+    //@loop 1
+        invariant
+            self.wf(), n < 0, -100000 <= n <= 100000, start_index == self.start.idx(),
+            8 <= self.month.ord() + n, self.month.ord() + 8 <= LO_MAX(),
+            m.ord() <= self.month.ord(), m.ord() - self.month.ord() >= (self.index + n) - d,
+            -200000 <= d <= 6, self.index <= 5, d < lwc(m.ord(), start_index as int),
+            lweek_first(m.ord(), d as int, start_index as int) == self.first() + 7 * n,
+        decreases -d + 10,
+    //@loop_start 1
+        proof { lemma_lborder(m.ord() - 1, start_index as int); lemma_lborder(m.ord(), start_index as int); m.axiom_id(); }
     //@END
 }
 
